@@ -1246,6 +1246,10 @@ func (f *Frame) execNext(in *ssa.Next, st *State) {
 		rv := e.define("rune", "Int", r)
 		wv := e.define("rw", "Int", w)
 		st.iters[rng] = e.define("it", "Int", sIte(okT, "(+ "+off+" "+wv+")", off))
+		if e.usesRunes() {
+			// step lemma of runes_upto at the position this iteration visits
+			e.assume(okT, fmt.Sprintf("(= %s (+ %s 1))", e.runesUpto(s, "(+ "+off+" "+wv+")"), e.runesUpto(s, off)))
+		}
 		tup := in.Type().(*types.Tuple)
 		f.set(in, Val{T: in.Type(), Tuple: []Val{{T: tup.At(0).Type(), S: okT}, {T: tup.At(1).Type(), S: off}, {T: tup.At(2).Type(), S: rv}}})
 		return
@@ -1497,4 +1501,35 @@ func (e *Engine) implementsTerm(x string, it types.Type) string {
 	name := "impl." + sanitizeSym(types.TypeString(it, nil))
 	e.sc.Decl("fun:"+name, fmt.Sprintf("(declare-fun %s (Int) Bool)\n(assert (not (%s 0)))", name, name))
 	return fmt.Sprintf("(%s (iface.tag %s))", name, x)
+}
+
+// usesRunes: the contract under verification mentions rune counting.
+func (e *Engine) usesRunes() bool {
+	if e.C == nil {
+		return false
+	}
+	if e.runesFlag == 0 {
+		e.runesFlag = 1
+		var texts []string
+		for _, c := range e.C.Ensures {
+			texts = append(texts, c.Text)
+		}
+		for _, c := range e.C.Requires {
+			texts = append(texts, c.Text)
+		}
+		for _, l := range e.C.Loops {
+			for _, c := range l.Invariants {
+				texts = append(texts, c.Text)
+			}
+		}
+		for _, sc := range e.C.Sites {
+			texts = append(texts, sc.Clause.Text)
+		}
+		for _, t := range texts {
+			if strings.Contains(t, "runes") {
+				e.runesFlag = 2
+			}
+		}
+	}
+	return e.runesFlag == 2
 }
